@@ -438,7 +438,19 @@ func (f *Frame) conHints(anchor string) []Hint {
 }
 
 func (f *Frame) applyHint(h Hint, pc string, st *State, where string) {
+	f.applyHintCon(f.con, h, pc, st, where)
+}
+
+func (f *Frame) applyHintCon(con *Contract, h Hint, pc string, st *State, where string) {
 	env := f.env(st)
+	if f.parent != nil {
+		// inlined frame: contract-level names of the function under verification stay visible
+		for k, v := range f.root().spec {
+			if _, ok := env.vars[k]; !ok {
+				env.vars[k] = v
+			}
+		}
+	}
 	if h.Kind == "set" || h.Kind == "setdef" {
 		f.execSet(h, pc, st, env)
 		return
@@ -453,7 +465,7 @@ func (f *Frame) applyHint(h Hint, pc string, st *State, where string) {
 		}
 		f.vc.assume(pc, t)
 	case "assert":
-		f.vc.oblige("assert", fmt.Sprintf("%s#assert:%s", f.obFn(), where), pc, t, token.Position{Filename: f.con.File, Line: h.Line}, h.Src)
+		f.vc.oblige("assert", fmt.Sprintf("%s#assert:%s", f.obFn(), where), pc, t, token.Position{Filename: con.File, Line: h.Line}, h.Src)
 	}
 }
 
@@ -807,6 +819,14 @@ func (f *Frame) store(l *Loc, v string, st *State, pc string, pos token.Pos) {
 		}
 		f.store(l.Base, "("+q("mk "+name)+" "+strings.Join(fs, " ")+")", st, pc, pos)
 	case LocElem:
+		if lits, ok := vc.arrayLits[l.Arr]; ok {
+			var k int
+			if _, err := fmt.Sscanf(l.Idx, "%d", &k); err == nil && fmt.Sprint(k) == l.Idx && k >= 0 && k < len(lits) {
+				lits[k] = v
+			} else {
+				delete(vc.arrayLits, l.Arr)
+			}
+		}
 		cn := elemComp(l.Typ)
 		c := vc.comp(st, cn, vc.elemCompSort(l.Typ), l.Typ)
 		f.noteCompSt(st, cn)
@@ -862,6 +882,13 @@ func (f *Frame) instr(ins ssa.Instruction, pc string, st *State) string {
 			f.noteCompSt(st, cn)
 			st.heap[cn] = vc.define("h", vc.compSorts[cn], fmt.Sprintf("(store %s %s ((as const (Array Int %s)) %s))", c, id, vc.sortOf(at.Elem()), vc.zero(at.Elem())))
 			f.vals[t] = Val{Loc: &Loc{Kind: LocArray, Ref: id, Typ: et}, Typ: t.Type()}
+			if at.Len() <= 16 {
+				lits := make([]string, at.Len())
+				for k := range lits {
+					lits[k] = vc.zero(at.Elem())
+				}
+				vc.arrayLits[id] = lits
+			}
 			break
 		}
 		r := f.newRef(st, t.Comment)
@@ -1278,6 +1305,11 @@ func (f *Frame) sliceOp(t *ssa.Slice, pc string, st *State) {
 		}
 		f.safe(pc, "slice", t.Pos(), fmt.Sprintf("(and (<= 0 %s) (<= %s %s) (<= %s %d))", lo, lo, hi, hi, at.Len()), "array slice bounds in range")
 		f.setVal(t, fmt.Sprintf("(mk_slice %s %s (- %s %s) (- %d %s))", l.Ref, lo, hi, lo, at.Len(), lo))
+		if lits, ok := vc.arrayLits[l.Ref]; ok && lo == "0" && hi == fmt.Sprint(at.Len()) {
+			v := f.vals[t]
+			v.Lit = append([]string{}, lits...)
+			f.vals[t] = v
+		}
 	default:
 		unsup("slice of %s", x.Typ)
 	}
